@@ -81,3 +81,11 @@ package r1
 //@   requires vcOK(i) && !vcIsNaN(p) && margin >= 0 && margin <= 1e300
 //@   ensures [kept] i.Contains(p) ==> result.Contains(p)
 //@   ensures [empty-stays-empty] i.IsEmpty() ==> result.IsEmpty()
+
+//@ func (i Interval) Equal(oi Interval) bool
+//@   inline
+//@   fp
+//@   ghost p float64
+//@   requires vcOK(i) && vcOK(oi) && !vcIsNaN(p)
+//@   ensures [sound] result ==> (i.Contains(p) == oi.Contains(p))
+//@   ensures [complete] !result ==> (i.Contains(i.Lo) != oi.Contains(i.Lo)) || (i.Contains(i.Hi) != oi.Contains(i.Hi)) || (i.Contains(oi.Lo) != oi.Contains(oi.Lo)) || (i.Contains(oi.Hi) != oi.Contains(oi.Hi))
